@@ -113,6 +113,7 @@ func (q QueryResult) String() string {
 	for k := range q[0] {
 		cols = append(cols, k)
 	}
+	sort.Strings(cols) // map iteration order is random
 	for _, col := range cols {
 		b.WriteString(fmt.Sprintf("%-20s", truncate(col, 20)))
 	}
@@ -553,6 +554,7 @@ func formatDump(dump *DatabaseDump) string {
 		for k := range t.Rows[0] {
 			cols = append(cols, k)
 		}
+		sort.Strings(cols) // map iteration order is random
 		for _, col := range cols {
 			b.WriteString(fmt.Sprintf("%-20s", truncate(col, 20)))
 		}
